@@ -94,15 +94,20 @@ def _fresh(v):
     return v
 
 
-def rand_nest(rng, depth, width):
-    if depth <= 0 or rng.random() < 0.3:
+def rand_nest(rng, depth, width, budget=None):
+    """random nesting with at most ~budget[0] nodes"""
+    if budget is None:
+        budget = [rng.choice([10, 30, 80, 150])]
+    budget[0] -= 1
+    if depth <= 0 or budget[0] <= 0 or rng.random() < 0.25:
         return rng.choice(POOL + V.LEAVES)
     kind = rng.choice(KINDS)
-    n = rng.randint(0, width)
+    n = min(rng.randint(0, width), max(0, budget[0]))
     if kind in ("set", "frozenset"):
-        kids = [rand_hashable(rng, depth - 1, width) for _ in range(n)]
+        kids = [rand_hashable(rng, min(depth - 1, 2), min(width, 3)) for _ in range(n)]
+        budget[0] -= n
         return set(kids) if kind == "set" else frozenset(kids)
-    kids = [rand_nest(rng, depth - 1, width) for _ in range(n)]
+    kids = [rand_nest(rng, depth - 1, width, budget) for _ in range(n)]
     if kind == "dict":
         keys = list(STR_KEYS) + ["k%d" % i for i in range(8)]
         if rng.random() < 0.3:
@@ -158,7 +163,7 @@ class Roundtrip(pipeline.Stream):
     model_imports = "JsonClassObs"
     case_type = "val * res val * res val * val"
     check_fn = "c15_rt_check"
-    shard = 1500
+    shard = 250
 
     def setup(self):
         import jsonrpclib.jsonclass as JC
@@ -188,7 +193,7 @@ class Roundtrip(pipeline.Stream):
         arg = W.dv_copy(case)
         before = W.dv_copy(arg)
         d = outcome(lambda: JC.dump(arg))
-        obs = {"dump": d, "dump_arg_unchanged": W.dv_same(arg, before) and repr(arg) == repr(before)}
+        obs = {"arg": arg, "dump": d, "dump_arg_unchanged": W.dv_same(arg, before)}
         if d[0] == "ok":
             dumped = d[1]
             snap = W.dv_copy(dumped)
@@ -219,7 +224,7 @@ class Roundtrip(pipeline.Stream):
         l = obs["load"]
         if l[0] != "ok":
             return ("C15:load-fails-on-dumped-plain-data", "load raised %s" % type(l[1]).__name__)
-        if not W.dv_same(l[1], W.dv_norm(case)):
+        if not W.norm_matches(l[1], case):
             return ("C15:roundtrip-differs", "load(dump(v)) = %r for v = %r" % (l[1], case))
         if not W.dv_same(obs["load_arg_after"], snap):
             return ("C15:load-modifies-argument", "load changed its argument")
@@ -228,8 +233,8 @@ class Roundtrip(pipeline.Stream):
     def encode(self, case, obs):
         d = obs["dump"]
         if d[0] != "ok":
-            return "(%s, %s, Ok VNone, VNone)" % (W.g_dv(case), W.g_outcome(d))
-        return "(%s, %s, %s, %s)" % (W.g_dv(case), "(Ok %s)" % W.g_dv(obs["dumped_snapshot"]),
+            return "(%s, %s, Ok VNone, VNone)" % (W.g_dv(obs["arg"]), W.g_outcome(d))
+        return "(%s, %s, %s, %s)" % (W.g_dv(obs["arg"]), "(Ok %s)" % W.g_dv(obs["dumped_snapshot"]),
                                      W.g_outcome(obs["load"]), W.g_dv(obs["load_arg_after"]))
 
     def nontrivial(self, case, obs):
